@@ -86,6 +86,58 @@ def build_item(spec: List[Any]) -> Tuple[Any, Optional[Any]]:
     raise ValueError(kind)
 
 
+REAL_SINK = r'''
+import sys, os
+out = open(sys.argv[1], "wb")
+while True:
+    b = os.read(0, 65536)
+    if not b:
+        break
+    out.write(b); out.flush()
+out.close()
+open(sys.argv[1] + ".eof", "w").close()
+'''
+
+
+def _run_real(built, state: Dict[str, Any]) -> None:
+    """the same sequence through a real child that copies its stdin to a file"""
+    import os
+    import shutil
+    import sys
+    import tempfile
+    import time
+
+    import anyio as _anyio
+
+    from chuk_mcp.transports.stdio.parameters import StdioParameters
+    from chuk_mcp.transports.stdio.stdio_client import StdioClient
+
+    d = tempfile.mkdtemp(prefix="vpbt_c06_")
+    try:
+        with open(os.path.join(d, "sink.py"), "w") as fh:
+            fh.write(REAL_SINK)
+        outp = os.path.join(d, "out.bin")
+
+        async def main():
+            async with StdioClient(StdioParameters(command=sys.executable, args=[os.path.join(d, "sink.py"), outp])) as client:
+                _r, w = client.get_streams()
+                for obj, _ in built:
+                    await w.send(obj)
+                await _anyio.sleep(0.15)
+                state["closed_before"] = os.path.exists(outp + ".eof")
+                await w.aclose()
+                for _ in range(100):
+                    if os.path.exists(outp + ".eof"):
+                        break
+                    await _anyio.sleep(0.02)
+                state["closed_after"] = os.path.exists(outp + ".eof")
+
+        _anyio.run(main)
+        state["data"] = open(outp, "rb").read() if os.path.exists(outp) else b""
+    finally:
+        shutil.rmtree(d, ignore_errors=True)
+
+
 def check(case: Dict[str, Any]) -> Outcome:
     from chuk_mcp.transports.stdio.stdio_client import StdioClient
 
@@ -110,7 +162,10 @@ def check(case: Dict[str, Any]) -> Outcome:
                 state["data"] = procs[0].stdin.data
 
     try:
-        run_virtual(main)
+        if case.get("real"):
+            _run_real(built, state)
+        else:
+            run_virtual(main)
     except Exception as e:  # noqa
         out.fail("stdio-client-raised", f"{type(e).__name__}: {e}")
         return out
@@ -120,7 +175,7 @@ def check(case: Dict[str, Any]) -> Outcome:
     raw_break = any(w is not None and any(c in json.dumps(w, ensure_ascii=False) for c in ("\\n", "\\r", " ", "\u0085")) for _, w in built)
     nested_null = any(w is not None and "null" in json.dumps(w) for _, w in built)
     out.nontrivial = bad_then_good or raw_break or nested_null
-    out.classes = tuple(c for c, v in (("bad-then-good", bad_then_good), ("raw-line-break-char", raw_break), ("nested-null", nested_null)) if v) + (f"items:{min(len(items), 12)}",)
+    out.classes = tuple(c for c, v in (("bad-then-good", bad_then_good), ("raw-line-break-char", raw_break), ("nested-null", nested_null)) if v) + (f"items:{min(len(items), 12)}",) + (("real-child",) if case.get("real") else ())
 
     data: bytes = state.get("data", b"")
     if state.get("closed_before"):
@@ -229,13 +284,17 @@ def job_positions(col: Collector, seed: int, tier: str) -> None:
     col.exhaustive_parts.append("each of 6 unserialisable kinds at each of 5 positions of a fixed 4-item sequence")
 
 
-JOBS = {"hyp": job_hyp, "positions": job_positions}
+def job_real(col: Collector, seed: int, tier: str, shard: int, n: int) -> None:
+    hyp_run(col, seed * 1000 + 700 + shard, cases().map(lambda c: dict(c, real=True)), check, n)
+
+
+JOBS = {"hyp": job_hyp, "positions": job_positions, "real": job_real}
 
 
 def jobs(tier: str):
     if tier == "quick":
         return [("hyp", {"shard": s, "n": 150}) for s in range(10)] + [("positions", {})]
-    return [("hyp", {"shard": s, "n": 2500}) for s in range(12)] + [("positions", {})]
+    return [("hyp", {"shard": s, "n": 2500}) for s in range(11)] + [("positions", {})] + [("real", {"shard": s, "n": 60}) for s in range(4)]
 
 
 def shrink(signature: str, seed: int):
